@@ -99,6 +99,15 @@ def run_real(env: _Env, blocks, init):
     env.write(init)
     log, records = [], []
     shared = {}  # one decorator object per (manager, arg), re-used by nested/repeated blocks
+    prebuilt = {}  # manager objects constructed before the history starts, entered later
+
+    def prebuild(bs):
+        for b in bs:
+            if b.get("form") == "prebuilt":
+                prebuilt[id(b)] = env.manager(b["which"], b["arg"])
+            prebuild(b["inner"])
+
+    prebuild(blocks)
 
     def run_block(b):
         pre = env.read()
@@ -117,6 +126,9 @@ def run_real(env: _Env, blocks, init):
         try:
             if b.get("form") == "decorator":
                 env.manager(b["which"], b["arg"])(body)()
+            elif b.get("form") == "prebuilt":
+                with prebuilt[id(b)]:
+                    body()
             elif b.get("form") == "shared-decorator":
                 key = (b["which"], b["arg"])
                 if key not in shared:
@@ -176,7 +188,7 @@ def label(shape, labels):
 def decorate(blocks, rng: random.Random):
     for b in blocks:
         b["arg"] = rng.randrange(1 if b["which"] == 2 else 0, N_ARGS[b["which"]])
-        b["form"] = rng.choice(["with", "decorator", "shared-decorator"])
+        b["form"] = rng.choice(["with", "decorator", "shared-decorator", "prebuilt"])
         b["how"] = rng.choice([1, 1, 2, 3, 4])
         decorate(b["inner"], rng)
 
